@@ -1,2 +1,2 @@
-# K3 (apply to <doc/>)
+# K3 repaired by a fix: commit - regression case, must pass (apply to <doc/>)
 <xsl:stylesheet version="1.0" xmlns:xsl="http://www.w3.org/1999/XSL/Transform"><xsl:template match="/"><xsl:element name="a:e" namespace="u4"><xsl:attribute name="b:x" xmlns:b="u4">u4</xsl:attribute></xsl:element></xsl:template></xsl:stylesheet>
